@@ -53,6 +53,7 @@ fn main() {
             let mut ctx = Ctx::new(&id, tier, seed, props::level_of(&id));
             ctx.strict = true;
             std::env::set_var("VERIF_NO_EVIDENCE", "1");
+            std::env::set_var("VERIF_REPLAY_FILE", &f);
             if !props::replay(&id, &mut ctx, &f) {
                 eprintln!("replay not supported for {id}");
                 std::process::exit(2);
